@@ -6,7 +6,7 @@ ID = "C09"
 RULE = (
     "case = (ordered group of 1..2 (thorough 3) members from a 12-member alphabet, file, run method); run on a fresh CsvPaths in a clean "
     "sandbox; the archive tree is compared with models/refarchive.py computed from the in-memory Result objects after the method "
-    "returns (vars.json, errors.json, printouts.txt, data.csv, unmatched.csv, member manifest valid/completed/file_fingerprints, run "
+    "returns (meta.json identity/metadata/valid/stopped/counters, vars.json, errors.json, printouts.txt, data.csv, unmatched.csv, member manifest valid/completed/file_fingerprints, run "
     "manifest status/all_valid/all_completed/error_count, member directory names); the expected collected lines come from a standalone "
     "CsvPath run of the member on the same file; non-trivial = some member collected lines and some member had printouts, errors or "
     "failed; state = (member, what it archived)"
@@ -135,6 +135,16 @@ def run_case(case):
             completed=completed,
             bad=bad,
             tag=f"member {ident}: ",
+            meta_expect={
+                "identity": ident,
+                "metadata": r.csvpath.metadata,
+                "runtime": {
+                    "valid": valid,
+                    "stopped": r.csvpath.stopped,
+                    "count_matches": r.csvpath.match_count,
+                    "count_scans": r.csvpath.scan_count,
+                },
+            },
         )
         states.append(run.h64((mi, fi, method, run.jsonable(r.csvpath.variables), valid, completed, len(errors))))
     got_names = sorted(d for d in os.listdir(rdir) if os.path.isdir(os.path.join(rdir, d)))
